@@ -1077,4 +1077,405 @@ theorem infosOf_cells (o : ColOpts) (chunks : List (List Cell)) (row : Nat) :
   | nil => rfl
   | cons ch rest ih => simp [infosOf, ih]
 
+
+/-! ### column iterator: the block loop of next_batch -/
+open ColIter
+
+
+def rowsOf (l : List BlockInfo) : Nat := (l.flatMap (·.cells)).length
+
+theorem rowsOf_append (a b : List BlockInfo) : rowsOf (a ++ b) = rowsOf a + rowsOf b := by
+  simp [rowsOf]
+
+theorem rowsOf_cons (b : BlockInfo) (l : List BlockInfo) : rowsOf (b :: l) = b.cells.length + rowsOf l := by
+  simp [rowsOf]
+
+theorem wf_split (pre : List BlockInfo) (b : BlockInfo) (post : List BlockInfo) (base : Nat)
+    (h : WfBlocks (pre ++ b :: post) base) :
+    b.firstRowid = base + rowsOf pre ∧ b.rowCount = b.cells.length ∧ 0 < b.cells.length := by
+  induction pre generalizing base with
+  | nil =>
+    obtain ⟨h1, h2, h3, _⟩ := h
+    exact ⟨by simp [rowsOf, h1], h2, by omega⟩
+  | cons a as ih =>
+    obtain ⟨h1, h2, h3, h4⟩ := h
+    have := ih (base + a.rowCount) h4
+    rw [rowsOf_cons]
+    exact ⟨by omega, this.2⟩
+
+/-- cells still ahead of a block iterator at `pos` of block `b`, followed by the later blocks -/
+def restCells (b : BlockInfo) (pos : Nat) (post : List BlockInfo) : List Cell :=
+  b.cells.drop pos ++ post.flatMap (·.cells)
+
+theorem arrB_finish_push (bld : ArrB) (h : bld.valid.length = bld.data.length) (got : List Cell) (dflt : Bytes) :
+    ({ data := bld.data ++ got.map (fun c => c.getD dflt), valid := bld.valid ++ got.map Option.isSome } : ArrB).finish
+      = bld.finish ++ got := by
+  simp only [ArrB.finish]
+  rw [List.zip_append h, List.map_append]
+  congr 1
+  induction got with
+  | nil => rfl
+  | cons c cs ih => cases c <;> simp_all
+
+/-- the iterator moved to the next block after taking `kk` more rows (normal form of the record
+updates in `nextLoop`) -/
+def advBlock (c : ColIter) (kk : Nat) : ColIter :=
+  { blocks := c.blocks, dflt := c.dflt, blockId := c.blockId + 1,
+    it := iterFor c.blocks c.dflt (c.blockId + 1) (c.rowId + kk), rowId := c.rowId + kk,
+    finished := c.finished, fake := c.fake }
+
+/-- state of a column iterator between operations (never fake here) -/
+def GoodState (blocks : List BlockInfo) (dflt : Bytes) (c : ColIter) : Prop :=
+  c.blocks = blocks ∧ c.fake = false ∧ c.dflt = dflt ∧
+  ((c.finished = true ∧ c.rowId = rowsOf blocks) ∨
+   (c.finished = false ∧ ∃ pre b post pos, blocks = pre ++ b :: post ∧ c.blockId = pre.length
+      ∧ c.it = { cells := b.cells, pos, rawNullable := false, dflt } ∧ pos ≤ b.cells.length
+      ∧ c.rowId = rowsOf pre + pos))
+
+theorem nextLoop_spec (blocks : List BlockInfo) (dflt : Bytes)
+    (hraw : ∀ b ∈ blocks, b.rawNullable = false) (hwf : WfBlocks blocks 0) :
+    ∀ (post : List BlockInfo) (fuel : Nat) (pre : List BlockInfo) (b : BlockInfo) (pos : Nat) (c : ColIter)
+      (e : Option Nat) (bld : ArrB) (t : Nat),
+      blocks = pre ++ b :: post → c.blocks = blocks → c.dflt = dflt → c.blockId = pre.length →
+      c.it = { cells := b.cells, pos, rawNullable := false, dflt } → pos ≤ b.cells.length →
+      c.rowId = rowsOf pre + pos → post.length < fuel → bld.valid.length = bld.data.length →
+      c.finished = false → c.fake = false →
+      (∀ k, e = some k → t < k) → (e = none → t = 0) →
+      ∃ d, (nextLoop fuel c e bld t).2.2 = t + d
+        ∧ (nextLoop fuel c e bld t).2.1.finish = bld.finish ++ (restCells b pos post).take d
+        ∧ d ≤ (restCells b pos post).length
+        ∧ (nextLoop fuel c e bld t).1.rowId = c.rowId + d
+        ∧ (∀ k, e = some k → t + d ≤ k)
+        ∧ (d = 0 → restCells b pos post = [])
+        ∧ GoodState blocks dflt (nextLoop fuel c e bld t).1 := by
+  intro post
+  induction post with
+  | nil =>
+    intro fuel pre b pos c e bld t hb hcb hcd hid hit hpos hrow hfuel hbld hfin hfake hsome hnone
+    obtain ⟨fuel, rfl⟩ : ∃ f, fuel = f + 1 := ⟨fuel - 1, by simp at hfuel; omega⟩
+    have hlen : c.blocks.length = pre.length + 1 := by rw [hcb, hb]; simp
+    simp only [nextLoop, BIter.nextBatch, hit]
+    cases e with
+    | some k0 =>
+      have htk := hsome k0 rfl
+      simp only [Option.map_some]
+      by_cases hle : k0 - t ≤ b.cells.length - pos
+      · -- the batch is completed inside this block
+        have hmin : min (k0 - t) (b.cells.length - pos) = k0 - t := Nat.min_eq_left hle
+        simp only [hmin, Bool.false_eq_true, ↓reduceIte]
+        have hdone : decide (t + (k0 - t) ≥ k0) = true := by simp; omega
+        simp only [hdone, ↓reduceIte]
+        refine ⟨k0 - t, rfl, ?_, ?_, by simp [hrow], ?_, ?_, ?_⟩
+        · rw [arrB_finish_push bld hbld]
+          simp [restCells, List.take_append_of_le_length (by simp; omega : k0 - t ≤ (b.cells.drop pos).length)]
+        · simp [restCells]; omega
+        · intro k hk; injection hk with hk; omega
+        · intro h0; omega
+        · refine ⟨hcb, hfake, hcd, .inr ⟨hfin, pre, b, [], pos + (k0 - t), hb, hid, rfl, by omega, by simp [hrow]; omega⟩⟩
+      · have hmin : min (k0 - t) (b.cells.length - pos) = b.cells.length - pos := Nat.min_eq_right (by omega)
+        simp only [hmin, Bool.false_eq_true, ↓reduceIte]
+        have hdone : decide (t + (b.cells.length - pos) ≥ k0) = false := by simp; omega
+        simp only [hdone, Bool.false_eq_true, ↓reduceIte, hid, hlen, Nat.le_refl, ge_iff_le]
+        refine ⟨b.cells.length - pos, rfl, ?_, by simp [restCells], by simp [hrow], ?_, ?_, ?_⟩
+        · rw [arrB_finish_push bld hbld]
+          simp [restCells, List.take_of_length_le]
+        · intro k hk; injection hk with hk; omega
+        · intro h0; simp [restCells]; omega
+        · refine ⟨hcb, hfake, hcd, .inl ⟨rfl, ?_⟩⟩
+          simp only [hrow, hb, rowsOf_append, rowsOf_cons, rowsOf]; simp; omega
+    | none =>
+      have ht := hnone rfl
+      subst ht
+      simp only [Option.map_none, Bool.false_eq_true, ↓reduceIte, Nat.zero_add]
+      by_cases hav : b.cells.length - pos = 0
+      · have hdone : ((b.cells.length - pos) != 0) = false := by simp [hav]
+        simp only [hdone, Bool.false_eq_true, ↓reduceIte, hid, hlen, Nat.le_refl, ge_iff_le]
+        refine ⟨b.cells.length - pos, by simp, ?_, by simp [restCells], by simp [hrow], ?_, ?_, ?_⟩
+        · rw [arrB_finish_push bld hbld]
+          simp [restCells, List.take_of_length_le]
+        · intro k hk; cases hk
+        · intro _; simp [restCells]; omega
+        · refine ⟨hcb, hfake, hcd, .inl ⟨rfl, ?_⟩⟩
+          simp only [hrow, hb, rowsOf_append, rowsOf_cons, rowsOf]; simp; omega
+      · have hdone : ((b.cells.length - pos) != 0) = true := by simp [hav]
+        simp only [hdone, ↓reduceIte]
+        refine ⟨b.cells.length - pos, by simp, ?_, by simp [restCells], by simp [hrow], ?_, ?_, ?_⟩
+        · rw [arrB_finish_push bld hbld]
+          simp [restCells, List.take_of_length_le]
+        · intro k hk; cases hk
+        · intro h0; omega
+        · refine ⟨hcb, hfake, hcd, .inr ⟨hfin, pre, b, [], pos + (b.cells.length - pos), hb, hid, rfl, by omega, by simp [hrow]; omega⟩⟩
+  | cons b2 post2 ih =>
+    intro fuel pre b pos c e bld t hb hcb hcd hid hit hpos hrow hfuel hbld hfin hfake hsome hnone
+    obtain ⟨fuel, rfl⟩ : ∃ f, fuel = f + 1 := ⟨fuel - 1, by simp at hfuel; omega⟩
+    have hlen : c.blocks.length = pre.length + 2 + post2.length := by rw [hcb, hb]; simp; omega
+    have hb' : blocks = (pre ++ [b]) ++ b2 :: post2 := by rw [hb]; simp
+    have hw2 := wf_split (pre ++ [b]) b2 post2 0 (hb' ▸ hwf)
+    have hraw2 : b2.rawNullable = false := hraw b2 (by rw [hb]; simp)
+    -- the continuation into the next block, shared by the "not done" cases
+    have hnext : ∀ (t' : Nat) (bld' : ArrB), bld'.valid.length = bld'.data.length →
+        (∀ k, e = some k → t' < k) → (e = none → t' = 0) →
+        ∃ d2, (nextLoop fuel (advBlock c (b.cells.length - pos)) e bld' t').2.2 = t' + d2
+          ∧ (nextLoop fuel (advBlock c (b.cells.length - pos)) e bld' t').2.1.finish
+              = bld'.finish ++ (restCells b2 0 post2).take d2
+          ∧ d2 ≤ (restCells b2 0 post2).length
+          ∧ (nextLoop fuel (advBlock c (b.cells.length - pos)) e bld' t').1.rowId
+              = c.rowId + (b.cells.length - pos) + d2
+          ∧ (∀ k, e = some k → t' + d2 ≤ k)
+          ∧ (d2 = 0 → restCells b2 0 post2 = [])
+          ∧ GoodState blocks dflt (nextLoop fuel (advBlock c (b.cells.length - pos)) e bld' t').1 := by
+      intro t' bld' hbld' hs' hn'
+      apply ih fuel (pre ++ [b]) b2 0 (advBlock c (b.cells.length - pos)) e bld' t' hb' hcb hcd (by simp [advBlock, hid]) _ (Nat.zero_le _) _ (by simp at hfuel; omega) hbld' hfin hfake hs' hn'
+      · simp only [advBlock, iterFor, hcb, hb, hid, hcd]
+        have hg : (pre ++ b :: b2 :: post2).getD (pre.length + 1) default = b2 := by
+          rw [List.getD_eq_getElem?_getD, List.getElem?_append_right (by omega)]; simp
+        rw [hg, hraw2]
+        congr 1
+        rw [hw2.1, hrow, rowsOf_append, rowsOf_cons]; simp [rowsOf]; omega
+      · simp only [advBlock, hrow, rowsOf_append, rowsOf_cons]; simp [rowsOf]; omega
+    simp only [nextLoop, BIter.nextBatch, hit]
+    cases e with
+    | some k0 =>
+      have htk := hsome k0 rfl
+      simp only [Option.map_some]
+      by_cases hle : k0 - t ≤ b.cells.length - pos
+      · have hmin : min (k0 - t) (b.cells.length - pos) = k0 - t := Nat.min_eq_left hle
+        simp only [hmin, Bool.false_eq_true, ↓reduceIte]
+        have hdone : decide (t + (k0 - t) ≥ k0) = true := by simp; omega
+        simp only [hdone, ↓reduceIte]
+        refine ⟨k0 - t, rfl, ?_, ?_, by simp [hrow], ?_, ?_, ?_⟩
+        · rw [arrB_finish_push bld hbld]
+          simp only [restCells]
+          rw [List.take_append_of_le_length (by simp; omega)]
+        · simp [restCells]; omega
+        · intro k hk; injection hk with hk; omega
+        · intro h0; omega
+        · refine ⟨hcb, hfake, hcd, .inr ⟨hfin, pre, b, b2 :: post2, pos + (k0 - t), hb, hid, rfl, by omega, by simp [hrow]; omega⟩⟩
+      · have hmin : min (k0 - t) (b.cells.length - pos) = b.cells.length - pos := Nat.min_eq_right (by omega)
+        simp only [hmin, Bool.false_eq_true, ↓reduceIte]
+        have hdone : decide (t + (b.cells.length - pos) ≥ k0) = false := by simp; omega
+        have hge : ¬ (c.blockId + 1 ≥ c.blocks.length) := by omega
+        simp only [hdone, Bool.false_eq_true, ↓reduceIte, hge]
+        obtain ⟨d2, h1, h2, h3, h4, h5, h6, h7⟩ := hnext (t + (b.cells.length - pos))
+          { data := bld.data ++ ((b.cells.drop pos).take (b.cells.length - pos)).map (fun c_1 => c_1.getD dflt),
+            valid := bld.valid ++ ((b.cells.drop pos).take (b.cells.length - pos)).map Option.isSome }
+          (by simp [hbld]) (by intro k hk; injection hk with hk; omega) (by intro h; cases h)
+        simp only [advBlock] at h1 h2 h4 h7
+        refine ⟨(b.cells.length - pos) + d2, by first | (rw [h1]; omega) | rw [h1], ?_, ?_, by rw [h4]; omega, ?_, ?_, h7⟩
+        · rw [h2, arrB_finish_push bld hbld]
+          simp only [restCells, List.drop_zero, List.flatMap_cons, List.append_assoc]
+          rw [List.take_of_length_le (by simp)]
+          have : (b.cells.drop pos).length = b.cells.length - pos := by simp
+          rw [← this, List.take_length_add_append]
+        · simp only [restCells, List.length_append, List.length_drop, List.flatMap_cons, List.drop_zero] at h3 ⊢; omega
+        · intro k hk; have := h5 k hk; omega
+        · intro h0
+          have hd2 : d2 = 0 := by omega
+          have := h6 hd2
+          simp [restCells] at this
+          exact absurd this.1 (by intro hh; have := hw2.2.2; simp [hh] at this)
+    | none =>
+      have ht := hnone rfl
+      subst ht
+      simp only [Option.map_none, Bool.false_eq_true, ↓reduceIte, Nat.zero_add]
+      by_cases hav : b.cells.length - pos = 0
+      · have hdone : ((b.cells.length - pos) != 0) = false := by simp [hav]
+        have hge : ¬ (c.blockId + 1 ≥ c.blocks.length) := by omega
+        simp only [hdone, Bool.false_eq_true, ↓reduceIte, hge]
+        obtain ⟨d2, h1, h2, h3, h4, h5, h6, h7⟩ := hnext (b.cells.length - pos)
+          { data := bld.data ++ ((b.cells.drop pos).take (b.cells.length - pos)).map (fun c_1 => c_1.getD dflt),
+            valid := bld.valid ++ ((b.cells.drop pos).take (b.cells.length - pos)).map Option.isSome }
+          (by simp [hbld]) (by intro k hk; cases hk) (by intro _; exact hav)
+        simp only [advBlock] at h1 h2 h4 h7
+        refine ⟨(b.cells.length - pos) + d2, by first | (rw [h1]; omega) | rw [h1], ?_, ?_, by rw [h4]; omega, ?_, ?_, h7⟩
+        · rw [h2, arrB_finish_push bld hbld]
+          simp only [restCells, List.drop_zero, List.flatMap_cons, List.append_assoc]
+          rw [List.take_of_length_le (by simp)]
+          have : (b.cells.drop pos).length = b.cells.length - pos := by simp
+          rw [← this, List.take_length_add_append]
+        · simp only [restCells, List.length_append, List.length_drop, List.flatMap_cons, List.drop_zero] at h3 ⊢; omega
+        · intro k hk; cases hk
+        · intro h0
+          have hd2 : d2 = 0 := by omega
+          have := h6 hd2
+          simp [restCells] at this
+          exact absurd this.1 (by intro hh; have := hw2.2.2; simp [hh] at this)
+      · have hdone : ((b.cells.length - pos) != 0) = true := by simp [hav]
+        simp only [hdone, ↓reduceIte]
+        refine ⟨b.cells.length - pos, by simp, ?_, by simp [restCells], by simp [hrow], ?_, ?_, ?_⟩
+        · rw [arrB_finish_push bld hbld]
+          simp only [restCells]
+          rw [List.take_append_of_le_length (by simp)]
+          try simp [List.take_of_length_le]
+        · intro k hk; cases hk
+        · intro h0; omega
+        · refine ⟨hcb, hfake, hcd, .inr ⟨hfin, pre, b, b2 :: post2, pos + (b.cells.length - pos), hb, hid, rfl, by omega, by simp [hrow]; omega⟩⟩
+
+
+/-! ### column iterator: one next_batch -/
+open ColIter
+
+def cellsOf (blocks : List BlockInfo) : List Cell := blocks.flatMap (·.cells)
+
+theorem drop_restCells (pre : List BlockInfo) (b : BlockInfo) (post : List BlockInfo) (pos : Nat)
+    (h : pos ≤ b.cells.length) :
+    (cellsOf (pre ++ b :: post)).drop (rowsOf pre + pos) = restCells b pos post := by
+  simp only [cellsOf, List.flatMap_append, List.flatMap_cons, rowsOf, restCells]
+  rw [List.drop_append, List.drop_of_length_le (by omega), List.nil_append, Nat.add_sub_cancel_left,
+    List.drop_append]
+  rw [show pos - b.cells.length = 0 by omega]; simp
+
+theorem cellsOf_length (pre : List BlockInfo) (b : BlockInfo) (post : List BlockInfo) :
+    (cellsOf (pre ++ b :: post)).length = rowsOf pre + b.cells.length + rowsOf post := by
+  simp [cellsOf, rowsOf]; omega
+
+/-- outcome of one `next_batch(expected)` on a good state -/
+theorem nextBatch_spec (blocks : List BlockInfo) (dflt : Bytes)
+    (hraw : ∀ b ∈ blocks, b.rawNullable = false) (hwf : WfBlocks blocks 0)
+    (c : ColIter) (hg : GoodState blocks dflt c) (e : Option Nat) (he : ∀ k, e = some k → 0 < k) :
+    GoodState blocks dflt (c.nextBatch e).1 ∧
+    ((∃ cells, (c.nextBatch e).2 = .batch c.rowId cells
+        ∧ cells = ((cellsOf blocks).drop c.rowId).take cells.length ∧ 0 < cells.length
+        ∧ (∀ k, e = some k → cells.length ≤ k) ∧ (c.nextBatch e).1.rowId = c.rowId + cells.length)
+     ∨ ((c.nextBatch e).2 = .none ∧ (cellsOf blocks).length ≤ c.rowId ∧ (c.nextBatch e).1.rowId = c.rowId)) := by
+  obtain ⟨hcb, hfake, hcd, hst⟩ := hg
+  rcases hst with ⟨hfin, hrow⟩ | ⟨hfin, pre, b, post, pos, hb, hid, hit, hpos, hrow⟩
+  · simp only [ColIter.nextBatch, hfin, ↓reduceIte]
+    exact ⟨⟨hcb, hfake, hcd, .inl ⟨hfin, hrow⟩⟩, .inr ⟨trivial, by simp [cellsOf, rowsOf, hrow], trivial⟩⟩
+  · have hspec := nextLoop_spec blocks dflt hraw hwf post (c.blocks.length + 1) pre b pos c e {} 0 hb hcb hcd hid
+      hit hpos hrow (by rw [hcb, hb]; simp; omega) rfl hfin hfake (fun k hk => he k hk) (fun _ => rfl)
+    obtain ⟨d, h1, h2, h3, h4, h5, h6, h7⟩ := hspec
+    simp only [ColIter.nextBatch, hfin, Bool.false_eq_true, ↓reduceIte, hfake]
+    simp only [Nat.zero_add] at h1 h5
+    have hrest := drop_restCells pre b post pos hpos
+    rw [← hb, ← hrow] at hrest
+    by_cases hd : d = 0
+    · have h0 : ((nextLoop (c.blocks.length + 1) c e {} 0).2.2 == 0) = true := by simp [h1, hd]
+      simp only [h0, ↓reduceIte]
+      refine ⟨h7, .inr ⟨trivial, ?_, by rw [h4, hd]; rfl⟩⟩
+      have hr := h6 hd
+      have hl := congrArg List.length hrest
+      rw [hr] at hl
+      simp only [List.length_drop, List.length_nil] at hl
+      omega
+    · have h0 : ((nextLoop (c.blocks.length + 1) c e {} 0).2.2 == 0) = false := by simp [h1, hd]
+      simp only [h0, Bool.false_eq_true, ↓reduceIte]
+      have hfin0 : ({} : ArrB).finish = [] := rfl
+      rw [hfin0, List.nil_append] at h2
+      have hlen : ((restCells b pos post).take d).length = d := by simp; omega
+      refine ⟨h7, .inl ⟨_, rfl, ?_, ?_, ?_, ?_⟩⟩
+      · rw [h2, hlen, hrest]
+      · rw [h2, hlen]; omega
+      · intro k hk; rw [h2, hlen]; exact h5 k hk
+      · rw [h2, hlen]; exact h4
+
+
+
+/-! ### column iterator: scan programs -/
+open ColIter
+
+/-- read programs covered by the positive theorem: any batch sizes (≥ 1), hinted or not, hints and
+row-id queries; no `skip` -/
+def ScanOp : IterOp → Prop
+  | .next e => ∀ k, e = some k → 0 < k
+  | .nextHinted k => 0 < k
+  | .hint => True
+  | .rowId => True
+  | _ => False
+
+/-- the outputs of a scan program started at logical row `p` over the written cells `xs`: every
+batch is reported at the current logical row, is the slice of `xs` there, is non-empty and within the
+requested size; the position advances by its length; `none` only at the end -/
+def SpecScan (xs : List Cell) : Nat → List IterOp → List IterOut → Prop
+  | _, [], outs => outs = []
+  | p, op :: ops, outs =>
+    match op with
+    | .next e => ∃ out rest, outs = out :: rest ∧
+        ((∃ cells, out = .batch p cells ∧ cells = (xs.drop p).take cells.length ∧ 0 < cells.length
+            ∧ (∀ k, e = some k → cells.length ≤ k) ∧ SpecScan xs (p + cells.length) ops rest)
+         ∨ (out = .none ∧ xs.length ≤ p ∧ SpecScan xs p ops rest))
+    | .nextHinted k => ∃ out rest, outs = out :: rest ∧
+        ((∃ cells, out = .batch p cells ∧ cells = (xs.drop p).take cells.length ∧ 0 < cells.length
+            ∧ cells.length ≤ k ∧ SpecScan xs (p + cells.length) ops rest)
+         ∨ (out = .none ∧ xs.length ≤ p ∧ SpecScan xs p ops rest))
+    | .hint => ∃ out rest, outs = out :: rest ∧ SpecScan xs p ops rest
+    | .rowId => ∃ rest, outs = .rowId p :: rest ∧ SpecScan xs p ops rest
+    | _ => False
+
+theorem hinted_pos (c : ColIter) (k : Nat) (hk : 0 < k) : 0 < hinted c k ∧ hinted c k ≤ k := by
+  simp only [hinted]
+  split
+  · exact ⟨hk, Nat.le_refl _⟩
+  · rename_i h
+    have : c.fetchHint.1 ≠ 0 := by simpa using h
+    exact ⟨by omega, Nat.min_le_left _ _⟩
+
+theorem scan_spec (blocks : List BlockInfo) (dflt : Bytes)
+    (hraw : ∀ b ∈ blocks, b.rawNullable = false) (hwf : WfBlocks blocks 0)
+    (ops : List IterOp) (hops : ∀ op ∈ ops, ScanOp op) (c : ColIter) (hg : GoodState blocks dflt c) :
+    SpecScan (cellsOf blocks) c.rowId ops (runOps c ops) := by
+  induction ops generalizing c with
+  | nil => simp [SpecScan, runOps]
+  | cons op ops ih =>
+    have hop := hops op (by simp)
+    have hrest : ∀ o ∈ ops, ScanOp o := fun o ho => hops o (by simp [ho])
+    cases op with
+    | next e =>
+      obtain ⟨hg', hout⟩ := nextBatch_spec blocks dflt hraw hwf c hg e hop
+      simp only [SpecScan, runOps, ColIter.step]
+      refine ⟨_, _, rfl, ?_⟩
+      rcases hout with ⟨cells, h1, h2, h3, h4, h5⟩ | ⟨h1, h2, h3⟩
+      · left
+        refine ⟨cells, h1, h2, h3, h4, ?_⟩
+        have := ih hrest _ hg'
+        rwa [h5] at this
+      · right
+        refine ⟨h1, h2, ?_⟩
+        have := ih hrest _ hg'
+        rwa [h3] at this
+    | nextHinted k =>
+      obtain ⟨hp, hle⟩ := hinted_pos c k hop
+      obtain ⟨hg', hout⟩ := nextBatch_spec blocks dflt hraw hwf c hg (some (hinted c k))
+        (fun k' hk' => by injection hk' with hk'; omega)
+      simp only [SpecScan, runOps, ColIter.step]
+      refine ⟨_, _, rfl, ?_⟩
+      rcases hout with ⟨cells, h1, h2, h3, h4, h5⟩ | ⟨h1, h2, h3⟩
+      · left
+        refine ⟨cells, h1, h2, h3, by have := h4 _ rfl; omega, ?_⟩
+        have := ih hrest _ hg'
+        rwa [h5] at this
+      · right
+        refine ⟨h1, h2, ?_⟩
+        have := ih hrest _ hg'
+        rwa [h3] at this
+    | hint =>
+      simp only [SpecScan, runOps, ColIter.step]
+      exact ⟨_, _, rfl, ih hrest c hg⟩
+    | rowId =>
+      simp only [SpecScan, runOps, ColIter.step]
+      exact ⟨_, rfl, ih hrest c hg⟩
+    | skip n => exact absurd hop (by simp [ScanOp])
+    | skipHinted n => exact absurd hop (by simp [ScanOp])
+
+/-- a freshly created iterator at row 0 is in a good state -/
+theorem new_good (blocks : List BlockInfo) (dflt : Bytes)
+    (hraw : ∀ b ∈ blocks, b.rawNullable = false) (hwf : WfBlocks blocks 0) (hne : blocks ≠ []) :
+    GoodState blocks dflt (ColIter.new blocks dflt 0) ∧ (ColIter.new blocks dflt 0).rowId = 0 := by
+  cases blocks with
+  | nil => exact absurd rfl hne
+  | cons b rest =>
+    obtain ⟨h1, h2, h3, h4⟩ := hwf
+    have hbor : blockOfRow (b :: rest) 0 = 0 := by
+      simp only [blockOfRow, List.takeWhile_cons, h1, Nat.le_refl, decide_true, ↓reduceIte]
+      cases rest with
+      | nil => rfl
+      | cons b2 r2 =>
+        obtain ⟨g1, _⟩ := h4
+        have : ¬ (b2.firstRowid ≤ 0) := by omega
+        simp [List.takeWhile_cons]; omega
+    refine ⟨⟨rfl, rfl, rfl, .inr ⟨rfl, [], b, rest, 0, rfl, ?_, ?_, Nat.zero_le _, ?_⟩⟩, rfl⟩
+    · simp [ColIter.new, hbor]
+    · simp [ColIter.new, hbor, iterFor, h1, hraw b (by simp)]
+    · simp [ColIter.new, rowsOf]
+
 end RlModel
